@@ -1267,16 +1267,26 @@ impl<'a, 'b> InternalDelphiLogicalLineParser<'a, 'b> {
         }
     }
     fn skip_pair(&mut self) {
+        let opening_token_type = self.get_current_token_type();
         let paren_level = self.paren_level;
         let brack_level = self.brack_level;
         let generic_level = self.generic_level;
 
+        // Only the kind of bracket that was opened decides where the pair ends; e.g. a `<`
+        // inside parens may be a comparison that is never closed.
+        let is_open = |parser: &Self| match opening_token_type {
+            Some(TT::Op(OK::LParen)) => parser.paren_level != paren_level,
+            Some(TT::Op(OK::LBrack)) => parser.brack_level != brack_level,
+            Some(TT::Op(OK::LessThan(_))) => parser.generic_level != generic_level,
+            _ => {
+                parser.paren_level != paren_level
+                    || parser.brack_level != brack_level
+                    || parser.generic_level != generic_level
+            }
+        };
+
         self.next_token();
-        while (self.paren_level != paren_level
-            || self.brack_level != brack_level
-            || self.generic_level != generic_level)
-            && self.get_current_token_type().is_some()
-        {
+        while is_open(self) && self.get_current_token_type().is_some() {
             self.next_token();
         }
     }
